@@ -196,6 +196,18 @@ func (n *N) JQ() (string, error) {
 			return "", fmt.Errorf("dv: bad format/path")
 		}
 		return `("` + n.Args[0] + `" | from_hex | ` + n.Args[3] + ` | ` + n.Args[4] + `)`, nil
+	case "dvs":
+		// (dvs ROOTHEX FORMAT PATH): a synthetic decode value
+		if err := argn(3); err != nil || len(n.Kids) != 0 {
+			return "", fmt.Errorf("dvs: bad")
+		}
+		if _, err := hex.DecodeString(n.Args[0]); err != nil {
+			return "", err
+		}
+		if !okIdent(n.Args[1]) || !okPath(n.Args[2]) {
+			return "", fmt.Errorf("dvs: bad format/path")
+		}
+		return `("` + n.Args[0] + `" | from_hex | ` + n.Args[1] + ` | ` + n.Args[2] + `)`, nil
 	case "tobitsn", "tobytesn":
 		if err := argn(1); err != nil || !isInt(n.Args[0]) {
 			return "", fmt.Errorf("%s: bad", n.Op)
